@@ -410,3 +410,56 @@ def search_pden(pps, configs, maxlen=5, nproc=16, root_names=False):
         if 0 < acc < len(names):
             nontriv.add((pattern, tuple(sorted(cf.items()))))
     return evals, len(nontriv), mism
+
+
+# ----------------------------------------------------------------------------------------------
+# util.norm_pattern
+# ----------------------------------------------------------------------------------------------
+
+def corr_norm(patterns, configs, nproc=16):
+    """configs: list of (is_bytes, normalize, raw)."""
+    import_impl()
+    import unicodedata
+    import re as _re
+    from wcmatch import util as U
+    m = Model()
+    dis = []
+    evals = 0
+    nontriv = set()
+    samples = []
+    kinds = collections.Counter()
+    for (isb, nrm, raw) in configs:
+        pats = [p for p in patterns if not isb or all(ord(c) < 256 for c in p)]
+        reqs = []
+        for p in pats:
+            tab = []
+            for nm in _re.findall(r'\\N\{([^}]*?)\}', p):
+                try:
+                    tab.append('%s=%x' % (enc(nm), ord(unicodedata.lookup(nm))))
+                except KeyError:
+                    pass
+            reqs.append('norm %d %d %d %s %s' % (isb, nrm, raw, enc(p), ';'.join(tab) or '[]'))
+        outs = m.run(reqs, nproc=nproc)
+        for p, o in zip(pats, outs):
+            try:
+                r = U.norm_pattern(p.encode('latin-1') if isb else p, bool(nrm), bool(raw))
+                exp = 'ok ' + enc(r)
+            except SyntaxError:
+                exp = 'syntaxerror'
+            except KeyError:
+                exp = 'keyerror'
+            except ValueError:
+                exp = 'valueerror'
+            except Exception as e:
+                exp = 'EXC ' + type(e).__name__
+            evals += 1
+            kinds[exp.split(' ')[0]] += 1
+            if o != exp:
+                dis.append({'kind': 'norm_pattern', 'pattern': p, 'bytes': bool(isb), 'normalize': bool(nrm), 'raw': bool(raw),
+                            'impl': dec(exp[3:], False) if exp.startswith('ok ') else exp,
+                            'model': dec(o[3:]) if o.startswith('ok ') else o})
+            elif exp.startswith('ok ') and exp != 'ok ' + enc(p):
+                nontriv.add((p, isb, nrm, raw))
+        if pats and len(samples) < 4:
+            samples.append({'pattern': pats[len(pats) // 2], 'bytes': bool(isb), 'normalize': bool(nrm), 'raw': bool(raw)})
+    return result(evals, len(nontriv), dis, samples, {'outcomes': dict(kinds)})
